@@ -2,12 +2,13 @@
     the pages inserted, in order), a tick-by-tick script (requests delivered to Top, number of
     responses drained), and what the real component did: outcome, per-tick observations and
     the page table's checkpoint DTO after the run. *)
-From Akita Require Import Lib.Base C26.Model C26.Exec C27.Model.
+From Akita Require Import Lib.Base C26.Model C26.Exec C27.Model C27.Proofs C27.Proofs3.
 Local Open Scope N_scope.
 
 Record case := mk_case {
   c_log2 : N; c_lat : Z; c_max : Z; c_auto : bool; c_cap : N;
   c_pre : list page;
+  c_cond : bool;                 (* the harness's evaluation of the alias-freedom condition on the initial table *)
   c_script : list (list req * nat);
   o_outcome : N;                 (* 0 ok, 1 panic "page not found", 2 panic in Insert, 3 any other panic *)
   o_ticks : list tick_obs;
@@ -30,6 +31,8 @@ Definition check_case (c : case) : bool :=
   let m0 := mmu_init (c_log2 c) (c_lat c) (c_max c) (c_auto c) (c_cap c) (pre_table (c_log2 c) (c_pre c)) in
   let '(oc, m, obs) := env_run id_oracle m0 (c_script c) in
   (outcome_code oc =? o_outcome c) && list_eqb tobs_eqb obs (o_ticks c) &&
+  (* the classifier of the known finding is the condition of c27_no_alias_general *)
+  Bool.eqb (alias_okb (c_log2 c) (all_pages (pre_table (c_log2 c) (c_pre c)))) (c_cond c) &&
   (if outcome_code oc =? 0 then dto_eqb (save id_oracle (m_tab m)) (o_final c) else true).
 
 (** ---- the property on the observed behaviour (independent of Model.v's tick function) *)
